@@ -72,6 +72,7 @@ M = [
  ('simd-load-x4',   'convolution/u8x4/sse4.rs', 'source = simd_utils::loadu_si128(src_row, x + 4);\n\n            pix = _mm_shuffle_epi8(source, sh1);\n            mmk = _mm_shuffle_epi8(ksource, sh5);', 'source = simd_utils::loadu_si128(src_row, x + 3);\n\n            pix = _mm_shuffle_epi8(source, sh1);\n            mmk = _mm_shuffle_epi8(ksource, sh5);', ['C02']),
  ('simd4-mask-hi',  'convolution/u8x4/sse4.rs', 'let mask_hi = _mm_set_epi8(-1, 15, -1, 11,', 'let mask_hi = _mm_set_epi8(-1, 15, -1, 10,', ['C02']),
  ('simd4-clone',    'convolution/u8x4/sse4.rs', 'simd_utils::mm_load_and_clone_i16x2(&k[2..]);', 'simd_utils::mm_load_and_clone_i16x2(&k[1..]);', ['C02']),
+ ('vert-unpack',    'convolution/vertical_u8/sse4.rs', 'let source = _mm_unpacklo_epi8(source1, source2);\n            let pix = _mm_unpacklo_epi8(source, _mm_setzero_si128());\n            sss0 =', 'let source = _mm_unpackhi_epi8(source1, source2);\n            let pix = _mm_unpacklo_epi8(source, _mm_setzero_si128());\n            sss0 =', ['C02']),
  ('alpha-list',     'mul_div.rs', 'PixelType::U8x2\n', 'PixelType::U8x3\n', ['C06', 'C07']),
 ]
 
